@@ -935,7 +935,7 @@ MUTANTS = [
      "np.power(points, -alpha)", "np.power(points, 1 - alpha)", "GaussLaguerre:"),
     ("GaussChebyshev-order-not-reversed", "super().__init__(points[::-1], weights, (-1, 1))",
      "super().__init__(points, weights, (-1, 1))", "GaussChebyshev:"),
-    ("TanhSinh-index-off-by-one", "        j = int((1 - npoints) / 2) + np.arange(npoints)",
+    ("TanhSinh-index-off-by-one", "        j = int((1 - int(npoints)) / 2) + np.arange(npoints)",
      "        j = int(-npoints / 2) + np.arange(npoints) + 1", "TanhSinh:"),
     ("Trefethen-derg3-coefficient-typo (12600 -> 12060)", "12600 * x**6", "12060 * x**6", "Trefethen"),
     ("strip-endpoint-limit (tanh^2 -> tanh; only nodes at +-1)",
